@@ -1,16 +1,92 @@
 """Claimed verification level per property (source of MANIFEST.json, see tools/mkmanifest.py).
-Kept honest: 'proof' only where the core of the statement is carried by discharged T1/T2 obligations."""
+Kept honest: 'proof' only where the core of the statement is carried by discharged deductive obligations (T1 unbounded / T2 all values
+at a stated shape bound / static judgements); every conjunct that is only a bounded stand-in (T3) is named as such."""
 
-_T3 = "run-time deal contracts on sidecar wrappers of the real functions over a bounded-exhaustive domain (bounded stand-in)"
-_TB = "trusted: CPython, numpy, deal, the spec oracles in spec/oracles.py (exhaustive enumeration); assumptions A1 A4 A6 A8 of DESIGN.md section 6"
+_ENGINE = ("pyvc (built here): re-reads /repo's source with ast on every run, symbolically executes the real statements against sidecar contracts "
+           "(contracts/*.py), discharges every obligation with z3 5.1; ")
+_TB = ("trusted: z3; CPython; the library contracts of pyvc/lib.py (sorted = stable permutation, min/max, numpy zeros/array/append/slicing views, heapq, itertools) "
+       "- cross-checked against CPython on every explored T2 path; spec functions rbag/rtot/btot of pyvc/logic.py (definitions; the one lemma used is proved by induction); "
+       "mathematical arithmetic (A1); partial correctness only (A4); for T3 stand-ins: deal and the exhaustive-enumeration oracles of spec/oracles.py")
 
-LEVELS = {}
-for pid in ["C%02d" % i for i in range(1, 21)]:
-    LEVELS[pid] = {
-        "category": "exploration",
-        "text": "Bounded stand-in only so far: the property's top-level contract (written from the statement, with an exhaustive-enumeration spec function as oracle) is attached as a deal contract to a sidecar wrapper of the real function and evaluated on every input of a deterministic bounded-exhaustive domain plus seeded samples. Never counted as proved; deductive (T1/T2) obligations are added per property as the engine reaches them.",
-        "note": _TB,
-        "technique": _T3,
-    }
+_T1 = "contract-based deductive verification of the real functions: sidecar pre/postconditions and inductive loop invariants, VCs generated from the AST, discharged by z3 (unbounded)"
+_T2 = "contract-based deductive verification at bounded shape: the real code is symbolically executed on every path for every number of items/bins up to a stated bound with ALL values symbolic; quantifier-free VCs discharged by z3, counter-models replayed on the real code"
+_T3 = "run-time deal contracts on sidecar wrappers over a bounded-exhaustive domain (bounded stand-in, never counted as proved)"
+
+LEVELS = {
+    "C01": dict(category="other",
+                text="Mixed. PROVED unbounded (T1, loop invariants over an abstract Binner contract, any number of items/bins, opaque items): greedy and round-robin return exactly numbins bins holding every item exactly once. "
+                     "PROVED for all values at bounded shape (T2, the real search code on every path): complete greedy x 3 objectives (n<=4, k<=3), CKK (n<=4), DP x 3 objectives (n<=3), CBLDM (n<=4) return a non-missing result that is a partition into the requested number of bins. "
+                     "BOUNDED STAND-IN only (T3): multifit, kk, snp, rnp, ilp, complete greedy under all 16 switch combinations, larger shapes. rnp with 6-8 bins is a listed known finding.",
+                technique=_T1 + " + " + _T2 + " + " + _T3),
+    "C02": dict(category="other",
+                text="Optimality of branch-and-bound searches is not decided for unbounded inputs by anything within reach. PROVED for all integer values at bounded shape (T2): on every path of the real search, the returned objective value is <= that of every one of the k^n assignments, for complete greedy x {difference, min-max, max-min} (default switches, n<=4, k<=3), CKK (n<=4, k<=3), DP x 3 objectives (n<=3, k<=2); "
+                     "and the pruning bounds every search rests on are admissible for every numbins<=6, all sums, all remaining totals (T2, modular). "
+                     "Everything beyond those shapes, the 16 switch combinations, k-largest/k-smallest objectives, snp, rnp, ilp: BOUNDED STAND-IN (T3) against an exhaustive optimum. rnp with 5 bins is a listed known finding.",
+                technique=_T2 + " + " + _T3),
+    "C03": dict(category="proof",
+                text="PROVED unbounded (T1) for first-fit, first-fit-decreasing, best-fit, best-fit-decreasing: for any number of items, any real bin size and values (integers and fractions alike), any arrival order, opaque items, the loop invariants give: every sum <= binsize, every item exactly once, no empty bin for a non-empty input, sums equal the totals of the recorded contents (so the bin count is the number of bins); decreasing variants are verified against online's contract (modular). "
+                     "Bin-completion (recursive search over Python lists with itertools) is outside the T1 fragment: BOUNDED STAND-IN (T3) only, named as such in the evidence.",
+                technique=_T1 + "; bin-completion: " + _T3),
+    "C04": dict(category="exploration",
+                text="Minimality of a branch-and-bound packer with dominance pruning is not decidable deductively here. Deductive part: purity of every function of bin_completion*.py (static, all paths) so that a per-call contract is meaningful. The deciding check is a BOUNDED STAND-IN (T3): the contract nb(result) = OPT_bins (exhaustive oracle), <= FFD, <= BFD, same count for Partition/Sums/BinCount, over a bounded-exhaustive domain.",
+                technique=_T3 + " + static purity judgement"),
+    "C05": dict(category="proof",
+                text="PROVED unbounded (T1) for the decreasing cover (modular: decreasing_subroutine's contract) and the two-thirds cover: every returned bin >= binsize, bins + dropped last bin = exactly the input multiset (each item used at most once), the dropped bin's total < binsize, inputs too small give zero bins; for any number of opaque items (list and dict alike). "
+                     "Three-quarters cover: PROVED for all real values and bin sizes at bounded shape (T2, n<=4 quick / n<=6 thorough, real manager class). T3 stand-ins run besides.",
+                technique=_T1 + " + " + _T2),
+    "C06": dict(category="proof",
+                text="(a) each reported sum equals the total of its bin: wf is proved as class invariant of both managers (T2: every operation from an arbitrary well-formed state of every shape <=3 bins/<=2 items per bin, frame and separation included) and as postcondition of every T1/T2-verified algorithm, which touch bins only through the Binner contracts. "
+                     "(b) a cheaper output type never changes the answer: PROVED at bounded shape (T2, n<=3..4) for ten heuristics by executing the real function with both managers and comparing sums. Exact algorithms, ckk/snp/rnp, extractors: BOUNDED STAND-IN (T3, every output type in prtpy.out).",
+                technique=_T1 + " + " + _T2 + " + " + _T3),
+    "C07": dict(category="other",
+                text="PROVED on every path of every T1/T2-verified function: items are an uninterpreted sort and only binner.valueof looks inside them; arithmetic or numeric comparison on an item is an obligation failure (opacity), ordering items among themselves is modelled by an arbitrary rank unrelated to the values, so any dependence on it fails the value-level postconditions. Together with parametricity (A7) this gives presentation independence for those functions. "
+                     "Adaptors, ckk/snp/rnp, ilp, multifit, bin-completion (listed known finding K3): BOUNDED STAND-IN (T3) with list / array / dict / int-named dict / names+valueof presentations.",
+                technique=_T1 + " + " + _T2 + " (opacity obligations) + " + _T3),
+    "C08": dict(category="other",
+                text="PROVED unbounded (T1): gap between largest and smallest sum <= some item for greedy and round-robin; round-robin sums non-increasing in bin index and cardinalities within one; each placement obeys its rule. The ratio bounds (4/3-1/(3k), (3k-1)/(4k-2), 1.22+2^-iterations) are published theorems about the textbook rules: not proved here; BOUNDED STAND-IN (T3) against an exhaustive optimum and planted instances, including named items and small iteration counts. kk gap: T3.",
+                technique=_T1 + " + " + _T3),
+    "C09": dict(category="proof",
+                text="PROVED unbounded (T1): the any-fit invariant (for any two bins, earlier sum + first item of the later bin > binsize) is a loop invariant of first-fit and best-fit in every arrival order and survives to the result; decreasing variants process in non-increasing order (modular). The bin-count bounds (1.7 OPT, 11/9 OPT + 6/9, 11/9 OPT + 4) follow by cited theorems (trusted) and are checked as BOUNDED STAND-IN (T3) against an exhaustive optimum.",
+                technique=_T1 + "; bin-count bounds: " + _T3),
+    "C10": dict(category="other",
+                text="'Never more than OPT' is a corollary of C05 (every reported bin is a genuine cover): PROVED (T1 decreasing, two-thirds; T2 three-quarters n<=4/6). The three lower bounds are published theorems about the rules proved in C14; they are checked as BOUNDED STAND-IN (T3) against an exhaustive subset oracle and planted instances.",
+                technique=_T1 + " + " + _T2 + " + " + _T3),
+    "C11": dict(category="other",
+                text="PROVED for all values at bounded shape (T2), with the clock modelled as an UNCONSTRAINED value at every read, so every interruption point of every run is a path: complete greedy x 3 objectives returns None or a complete valid partition (n<=3, k<=3); CBLDM returns its placeholder or a valid 2-partition obeying the bound (n<=3); the CKK generator yields only sums of real assignments, each strictly better than the previous, the last optimal (n<=3). Static (all paths): clock values flow only into the limit test. "
+                     "'First solution is LPT', monotone improvement over limits, larger shapes: BOUNDED STAND-IN (T3) with a deterministic counting clock at every cut-off.",
+                technique=_T2 + " with an arbitrary clock + static clock-flow judgement + " + _T3),
+    "C12": dict(category="other",
+                text="PROVED for all integer values at bounded shape (T2, n<=4 quick / n<=5 thorough, bounds 1, 2 and unbounded): on every path of the real recursive search the result has two bins holding every item once, cardinalities within the bound, and a difference <= that of every one of the 2^n subsets obeying the bound. Larger n: BOUNDED STAND-IN (T3) against all subsets, n<=10.",
+                technique=_T2 + " + " + _T3),
+    "C13": dict(category="proof",
+                text="PROVED for every numbins<=6 (7 thorough), ALL sorted integer sum vectors, ALL remaining totals and EVERY integer completion (T2, quantifier-free LIA after unrolling the real loop): each lower bound <= the objective of the completion and is independent of the sorted-flag (difference bound: modular, from the two callee contracts). "
+                     "Inclusion/exclusion enumerator and bin-combination enumerator: PROVED at bounded shape (T2, n<=4 items / <=3 bins) when the corresponding contracts are listed in the evidence, otherwise BOUNDED STAND-IN (T3).",
+                technique=_T2 + " + " + _T3),
+    "C14": dict(category="proof",
+                text="PROVED unbounded (T1): at every placement the chosen bin satisfies the textbook rule as a relation on the state at that moment - greedy: a least-loaded bin, items in non-increasing value order; round-robin: cyclic dealing; first-fit: the first bin that fits, a new bin only when none fits; best-fit: the fullest bin that fits, first among ties; decreasing cover: always the open last bin; two-thirds: one largest then smallest until covered. "
+                     "Three-quarters: PROVED for all values at bounded shape (T2) equal, bin by bin and item by item, to the reference transcription. Rule-conformance => same multiset of sums as the transcription is the meta-step A7; T3 compares against executable transcriptions besides.",
+                technique=_T1 + " + " + _T2),
+    "C15": dict(category="proof",
+                text="PROVED for all paths and sizes by syntactic frame/purity judgements over every function of the library (static tier): caller-owned arguments (items, sums, bins given to read-only operations) are never written directly, through an alias or through a callee (inter-procedural summaries); no function writes or memoises module-level state; no mutable default carries state. Hence results are functions of the arguments (repeatable, history-independent). T3 cross-checks with call interleavings.",
+                technique="syntactic frame / purity judgements on the real AST (modifies(f) subset of fresh(f)), inter-procedural, all paths + " + _T3),
+    "C16": dict(category="proof",
+                text="PROVED for all item values at bounded shape (T2): every documented operation of both managers, executed from an ARBITRARY well-formed state of every shape up to 3 (4) bins and 2 items per bin next to a second live array, keeps sums = totals of contents, has exactly its documented effect, writes nothing reachable from an argument documented as unmodified, leaves the other live array untouched and shares no buffer / outer list / inner list; copies are independent in both directions (checked by mutating one and looking at the other). All histories follow by induction over operations (A7).",
+                technique=_T2 + " on a heap model with object identities and numpy views"),
+    "C17": dict(category="exploration",
+                text="BOUNDED STAND-IN (T3): the ILP contract (copies honoured, sums ascending / weighted order, caller constraints, optimality among admissible partitions, ValueError on non-optimal status) is evaluated on real CBC over a bounded domain with a run-time monitor of the assumed solver contract; deductive T2 obligations under a symbolic solver contract are listed in the evidence when present.",
+                technique=_T3 + " with a solver-contract monitor"),
+    "C18": dict(category="other",
+                text="PROVED for all values at bounded shape (T2, relational: two symbolic executions of the real function): scaling values (and bin size) by 2 and 7 scales the sums, and reordering the input keeps the multiset of sums, for greedy, round-robin, kk, ff, ffd, bf, bfd and the three covers (n<=3 quick / 4 thorough); the pruning bounds the exact algorithms share are admissible (T2). Exact-algorithm symmetries and agreement on 11-16 items rest on C02: BOUNDED STAND-IN (T3).",
+                technique=_T2 + " (relational) + " + _T3),
+    "C19": dict(category="proof",
+                text="PROVED unbounded (T1) for the four fit heuristics: a returned packing implies no oversize item, and the only exception that can be raised is ValueError and only when an oversize item exists, at any position and multiplicity, for opaque items (every input format); the sums-only manager's numitems raises NotImplementedError (T2). CBLDM's argument checks and bin-completion's scan: BOUNDED STAND-IN (T3).",
+                technique=_T1 + " + " + _T3),
+    "C20": dict(category="proof",
+                text="PROVED for every vector length <=5 (7 thorough), list / tuple / ndarray, k up to 6 (8) including k > n, ALL non-negative integer sums and ALL positive weights (T2): each of the six objectives returns its documented quantity, and the fast path for sums declared sorted returns the same value whenever they are sorted. Longer vectors: BOUNDED STAND-IN (T3).",
+                technique=_T2),
+}
+for _k, _v in LEVELS.items():
+    _v.setdefault("note", _TB)
+    _v["technique"] = _v["technique"][:900]
 
 NOT_APPLICABLE = {}
